@@ -275,7 +275,9 @@ class C16(Check):
                                'times': [j + s for s in S.TIME_SHAPES],
                                'form': 'base'}
             elif layer == 'a-inline':
-                for dp in dps:
+                # how the format is spelt does not change its translation:
+                # the 78 patterns of the quick grammar are enough here
+                for dp in S.date_patterns('quick'):
                     yield {'part': 'a', 'date': dp, 'times': tps,
                            'form': 'inline'}
             return
